@@ -217,8 +217,13 @@ def generate(rng, tier):
             t = "%02d:%02d" % (h, mi) + (":%02d" % sec if withsec else "")
             uz = rng.choice([None, ("UTC", 0), ("GMT", 0)])
             uzz = uz or ("UTC", 0)
-            add("x = %s at %s\nx %s" % (date_text(rng, y, m, d), t, rng.choice(UNIX_PHRASES)), uz, "at-time-unix",
-                [dt(ts, uzz[0], 0), raw(ts)])
+            if rng.random() < 0.3:
+                # the clock time supplied by a variable
+                add("t = %s\nx = %s at t\nx %s" % (t, date_text(rng, y, m, d), rng.choice(UNIX_PHRASES)), uz, "at-time-variable-unix",
+                    [None, dt(ts, uzz[0], 0), raw(ts)])
+            else:
+                add("x = %s at %s\nx %s" % (date_text(rng, y, m, d), t, rng.choice(UNIX_PHRASES)), uz, "at-time-unix",
+                    [dt(ts, uzz[0], 0), raw(ts)])
         elif r < 0.90:
             # N -> date-time -> N
             n = pick_ts(rng, now_year)
@@ -320,6 +325,8 @@ def spec_check(c, rec, header):
     if len(lines) != len(exp):
         return "expected %d result lines, got %r" % (len(exp), lines)
     for e, line in zip(exp, lines):
+        if e is None:
+            continue                      # a line that only binds a variable
         if line is None:
             if e["t"] in ("Declined", "Far"):
                 continue
